@@ -135,7 +135,7 @@ def scale_classes(spec, ps):
 
 
 def in_generated_domain(ps):
-    return ps.spanning and ps.above_abs_tol
+    return ps.spanning
 
 
 def rigid_clause(T, d, sigbase, who):
